@@ -346,6 +346,14 @@ func (fr *Frame) havocCall(ctx *callCtx, ghost bool) Val {
 			} else if i < len(ctx.common.Args) {
 				av = ctx.common.Args[i]
 			}
+			if mi, ok := av.(*ssa.MakeInterface); ok {
+				// a pointer, slice or map passed as interface{} (json.Unmarshal(data, &v), codec.Unmarshal, ...):
+				// the callee may write through it
+				switch kindOf(mi.X.Type()) {
+				case kPtr, kSlice, kMap:
+					e.havocArg(ctx.st, fr.get(mi.X))
+				}
+			}
 			if av != nil {
 				if g := e.ghostOfValue(av); g != nil {
 					for _, suf := range []string{"_v", "_d"} {
@@ -421,7 +429,7 @@ func (e *Engine) havocArg(st *State, v Val) {
 			}
 		}
 	case kIface:
-		e.note("approx", "interface-typed arguments of unmodelled calls are assumed not to be written through")
+		e.note("approx", "interface-typed arguments of unmodelled calls whose dynamic value is not visible at the call site are assumed not to be written through")
 	}
 }
 
